@@ -184,7 +184,7 @@ def build_traces(log, direction, content, dup, clean_server, label, log_client=N
     return srv, cli, {"blk": blk, "W": w, "oack": oack}
 
 
-def run_tftpc(args, cwd, timeout=120):
+def run_tftpc(args, cwd, timeout=40):
     env = dict(os.environ)
     env.pop("RUST_BACKTRACE", None)
     try:
@@ -195,7 +195,7 @@ def run_tftpc(args, cwd, timeout=120):
 
 
 def one_run(srv, sb, workdir, direction, remote, content, blk, w, tmo, label, host="127.0.0.1", local_name=None,
-            expect_refusal=False, via_proxy=True, hold=0.004):
+            expect_refusal=False, via_proxy=True, hold=0.004, run_timeout=40):
     """Runs tftpc once.  Returns (server events, client events, final event)."""
     os.makedirs(workdir, exist_ok=True)
     rd = os.path.join(workdir, "rd")
@@ -239,7 +239,7 @@ def one_run(srv, sb, workdir, direction, remote, content, blk, w, tmo, label, ho
             "-b", str(blk), "-w", str(w), "-t", str(tmo)]
     args += ["-d", "-rd", rd] if direction == "download" else ["-u"]
     out_before = len(srv.output())
-    rc, so, se = run_tftpc(args, workdir)
+    rc, so, se = run_tftpc(args, workdir, timeout=run_timeout)
     time.sleep(0.05)
     if proxy:
         deadline = time.time() + 1.0
